@@ -464,6 +464,11 @@ def main_run(mod, tier: str, seed: int, nshards: int | None, only: str | None) -
         tot["errors"].append(f"[known-findings] {type(e).__name__}: {e}\n" + traceback.format_exc()[-2000:])
     tot["violations"] += new_from_known
 
+    if not only:  # a full run owns replays/<id>/: files of earlier runs would be misleading
+        import glob
+
+        for f in glob.glob(os.path.join(VERIF_DIR, "replays", pid, "*.json")):
+            os.unlink(f)
     replays = write_replays(pid, tot["violations"])
 
     # ------------------------------------------------------------ evidence
